@@ -23,6 +23,8 @@ class Stats:
         self.solver_s = 0.0
         self.queries = 0
         self.skipped_over_budget = 0
+        self.small_box_sat = 0
+        self.small_box_unsat = 0
 
     def as_dict(self):
         return dict(self.__dict__)
@@ -138,6 +140,10 @@ def model_inputs(model, input_tensors):
     return arrs
 
 
+SMALL_BOX = 12
+RLIMIT_PER_MS = int(__import__("os").environ.get("J2OV_RLIMIT_PER_MS", "4000"))
+
+
 class _Fresh:
     """Fresh solver per query: z3's incremental mode (push/pop) uses a weaker core for mixed
     Int/Real (ToInt) and non-linear problems -- probe: `round` query unknown@5s incremental, sat@0.0s fresh."""
@@ -162,7 +168,11 @@ class _Fresh:
 
     def check(self, timeout_ms=None):
         s = z3.Solver()
-        s.set("timeout", int(timeout_ms or self.timeout_ms))
+        t = int(timeout_ms or self.timeout_ms)
+        # deterministic resource limit decides (same verdict under any machine load); the wall-clock
+        # timeout is only a generous backstop
+        s.set("rlimit", t * RLIMIT_PER_MS)
+        s.set("timeout", t * 6)
         for c in self.base:
             s.add(c)
         for lvl in self.extra:
@@ -301,6 +311,21 @@ def compare_outputs(
                     solver.push()
                     solver.add(q)
                     r = str(solver.check(half))
+                if r == "unknown":
+                    # bounded fallback (stated bound): integer inputs restricted to a small box; a
+                    # model found here is a genuine candidate, `unsat` only closes the box
+                    ivars = [v for v in _vars_of(q_raw).values() if z3.is_int(v)]
+                    if ivars:
+                        solver.pop()
+                        solver.push()
+                        solver.add(q_raw)
+                        solver.add(z3.And(*[z3.And(v >= -SMALL_BOX, v <= SMALL_BOX) for v in ivars]))
+                        r2 = str(solver.check())
+                        if r2 == "sat":
+                            r = "sat"
+                            st.small_box_sat = getattr(st, "small_box_sat", 0) + 1
+                        elif r2 == "unsat":
+                            st.small_box_unsat = getattr(st, "small_box_unsat", 0) + 1
             st.solver_s += time.time() - t0
             if r == "unsat":
                 st.unsat += 1
